@@ -104,6 +104,53 @@ fn overlay_chain_history(s: &mut Scenario, r: &mut Rng) {
     s.probes.clear();
 }
 
+/// A stored merkle page (>= 20 leaves under one prefix) that an overlay empties or shrinks, a
+/// descendant overlay re-populates below / at / above the elision threshold, and a third changes
+/// again; every overlay session proves keys inside the page; then the chain is committed in order.
+fn overlay_threshold_history(s: &mut Scenario, r: &mut Rng) {
+    let base = r.bytes32();
+    let plen = *r.pick(&[12usize, 12, 13, 18, 18, 19, 24, 30]);
+    let mut keys: Vec<Key> = Vec::new();
+    while keys.len() < 34 { let mut k = r.bytes32(); for i in 0..plen { set_bit(&mut k, i, get_bit(&base, i)); } if !keys.contains(&k) { keys.push(k); } }
+    let mut stamp = 1_200_000u32;
+    let mut mk = |ks: &[(Key, bool)], proves: &[Key], r: &mut Rng| -> Batch {
+        let mut items: Vec<(K, Act)> = ks.iter().map(|(k, del)| { stamp += 1; (K(*k), if *del { Act::Write(None) } else { Act::Write(Some(VSpec { len: *r.pick(&[4u32, 40, 300, 1400]), stamp })) }) }).collect();
+        items.sort_by(|a, b| a.0.cmp(&b.0)); items.dedup_by(|a, b| a.0 == b.0);
+        Batch { items, proves: proves.iter().map(|k| K(*k)).collect(), reads: proves.iter().take(3).map(|k| K(*k)).collect(), ..Default::default() }
+    };
+    let flip = |k: &Key, bit: usize| { let mut p = *k; set_bit(&mut p, bit, !get_bit(k, bit)); p };
+    let others: Vec<Key> = (0..r.range(2, 8)).map(|_| r.bytes32()).collect();
+    r.shuffle(&mut keys);
+    let n_first = r.range(20, 28) as usize;
+    let first: Vec<Key> = keys[..n_first].to_vec();
+    let mut pv: Vec<Key> = keys.iter().take(3).cloned().collect();
+    pv.extend(keys.iter().rev().take(3).cloned());
+    pv.push(flip(&keys[0], 255)); pv.push(flip(&keys[1], plen + 7)); pv.push(flip(&keys[2], plen + 1));
+    let mut steps = Vec::new();
+    let mut f: Vec<(Key, bool)> = first.iter().map(|k| (*k, false)).collect(); f.extend(others.iter().map(|k| (*k, false)));
+    steps.push(Step::Commit { batch: mk(&f, &[], r), nonblocking: false });
+    if r.chance(1, 3) { steps.push(Step::Reopen { opts: regen_opts(r, &s.opts, true) }); }
+    // A: empty (or nearly empty) the page
+    let keep = *r.pick(&[0usize, 0, 0, 1, 2, 5, 19]);
+    let a: Vec<(Key, bool)> = first.iter().skip(keep).map(|k| (*k, true)).collect();
+    steps.push(Step::OvBuild { id: 0, parent: None, batch: mk(&a, &pv, r) });
+    // B: re-populate below / at / above the threshold (keys old and new)
+    let m = *r.pick(&[2usize, 3, 4, 8, 15, 19, 20, 22]);
+    let mut pick_from = keys.clone(); r.shuffle(&mut pick_from);
+    let b: Vec<(Key, bool)> = pick_from.iter().take(m).map(|k| (*k, false)).collect();
+    steps.push(Step::OvBuild { id: 1, parent: Some(0), batch: mk(&b, &pv, r) });
+    let mut depth = 2;
+    if r.chance(2, 3) {
+        let c: Vec<(Key, bool)> = if r.chance(1, 2) { pick_from.iter().skip(m).take(r.range(1, 24) as usize).map(|k| (*k, false)).collect() } else { pick_from.iter().take(r.range(1, m as u64) as usize).map(|k| (*k, true)).collect() };
+        steps.push(Step::OvBuild { id: 2, parent: Some(1), batch: mk(&c, &pv, r) });
+        depth = 3;
+    }
+    for id in 0..depth { steps.push(Step::OvCommit { id, nonblocking: r.chance(1, 3) }); if r.chance(1, 8) { steps.push(Step::Reopen { opts: regen_opts(r, &s.opts, true) }); break; } }
+    if r.chance(1, 3) { steps.push(Step::Commit { batch: mk(&keys.iter().take(6).map(|k| (*k, false)).collect::<Vec<_>>(), &pv, r), nonblocking: false }); }
+    s.steps = steps;
+    s.probes = pv.iter().map(|k| K(*k)).collect();
+}
+
 /// A value-file free list spanning several pages: a few dozen multi-page values are written and
 /// then all replaced in one commit (more than 1022 pages released at once), followed by reopen /
 /// small commit / reopen / large commit / ... so that the list is read back from disk, popped
@@ -159,6 +206,11 @@ pub fn make(prop: &str, tier: Tier, seed: u64) -> Scenario {
         let target = freelist_history(&mut s, &mut fr);
         let target = target.min(s.steps.len() - 1);
         if let Some(pl) = s.extra.get_mut("plan") { pl["target"] = json!(target); }
+    }
+    let mut or = Rng::new(seed ^ 0x0E11_D0E5);
+    if matches!(prop, "C02" | "C05" | "C11" | "C16") && s.extra.get("plan").is_none() && s.extra.get("kind").is_none() && or.chance(1, 12) {
+        overlay_threshold_history(&mut s, &mut or);
+        if prop == "C11" { s.opts.rollback = true; s.opts.max_rollback_log_len = s.opts.max_rollback_log_len.max(5); let n = or.range(1, 3) as usize; for _ in 0..n { s.steps.push(Step::Rollback { n: 1 }); } }
     }
     s
 }
